@@ -58,7 +58,8 @@ def _ip_call(G, lab, x, y, L, S):
     """one inducing_path call with FRESH (equal, not identical) label objects as arguments"""
     from pywhy_graphs.algorithms import inducing_path
     try:
-        r = inducing_path(G, lab.fresh(x), lab.fresh(y), {lab.fresh(v) for v in L}, {lab.fresh(v) for v in S})
+        wrap = frozenset if lab.family == "nested" else set
+        r = inducing_path(G, lab.fresh(x), lab.fresh(y), wrap(lab.fresh(v) for v in L), wrap(lab.fresh(v) for v in S))
     except Exception as e:
         return {"ans": "err:" + type(e).__name__}
     if not (isinstance(r, tuple) and len(r) == 2 and (r[0] is True or r[0] is False)):
@@ -98,7 +99,8 @@ def impl(case):
         from pywhy_graphs.algorithms import dag_to_mag
         before = C.snapshot(G)
         try:
-            M = dag_to_mag(G, {lab.fresh(v) for v in case["L"]}, {lab.fresh(v) for v in case["S"]})
+            wrap = frozenset if lab.family == "nested" else set
+            M = dag_to_mag(G, wrap(lab.fresh(v) for v in case["L"]), wrap(lab.fresh(v) for v in case["S"]))
         except Exception as e:
             return {"ans": "err:" + type(e).__name__}
         try:
